@@ -80,6 +80,7 @@ type c09Mirror struct {
 	Q      uint64   `json:"q"`
 	M      uint32   `json:"m"`
 	Active []bool   `json:"a"` // NetworkMachine.Is1 per client state
+	Clock  []uint64 `json:"c"` // NetworkMachine.Tick per client state (the Clock / Tick / WhenTime view)
 }
 
 type c09Step struct {
@@ -503,6 +504,27 @@ func (p *c09Pair) mirror() c09Mirror {
 	for _, s := range names {
 		m.Active = append(m.Active, nm.Is1(s))
 	}
+	// the view behind Tick / Clock / IsClock / WhenTime; read once more when it
+	// disagrees with Time (an update may land between the two reads)
+	for try := 0; try < 3; try++ {
+		m.Clock = m.Clock[:0]
+		agree := true
+		for i, s := range names {
+			t := nm.Tick(s)
+			m.Clock = append(m.Clock, t)
+			if i < len(m.Time) && t != m.Time[i] {
+				agree = false
+			}
+		}
+		if agree {
+			break
+		}
+		m.Time = append([]uint64{}, nm.Time(nil)...)
+		m.Q, m.M = nm.QueueTick(), nm.MachineTick()
+		for i, s := range names {
+			m.Active[i] = nm.Is1(s)
+		}
+	}
 	return m
 }
 
@@ -891,8 +913,8 @@ func c09CoqMir(m c09Mirror) string {
 	for i, b := range m.Active {
 		bs[i] = coqBool(b)
 	}
-	return fmt.Sprintf("{| m_t := %s; m_q := %d; m_m := %d; m_a := [%s] |}", coqNList(m.Time), m.Q, m.M,
-		strings.Join(bs, ";"))
+	return fmt.Sprintf("{| m_t := %s; m_q := %d; m_m := %d; m_a := [%s]; m_c := %s |}", coqNList(m.Time), m.Q, m.M,
+		strings.Join(bs, ";"), coqNList(m.Clock))
 }
 
 func c09Coq(in *C09Input, obs *c09Obs) string {
